@@ -4,7 +4,7 @@ package harness
 //
 // op lines (one trace = `reset priv`, fixture `own` lines, then ops):
 //   own <obj> a<i>                                   fixture object <obj> is owned by actor i
-//   fix <what>                                       re-create a consumed fixture object
+//   fix <what>                                       re-create a consumed fixture object (tick | subject: c20_ibc_test.go)
 //   priv <module.Msg> <obj> <signer> <valid> <new>   deliver the message with `signer` in its signer
 //                                                    field; <valid> = the same content is accepted
 //                                                    when sent by the privileged signer (measured in
@@ -56,6 +56,7 @@ const (
 	oSeq2     = 8  // a second, non-proposer sequencer of r0
 	oProposer = 9  // the proposer role of r0 (owner = the actor whose sequencer is the current proposer)
 	oVote     = 10 // the sponsorship vote of a3 (addressed by the voter itself)
+	// oPlanRA2 = 11: rollapp r2 carrying the settled IRO plan (c20_ibc_test.go)
 	c20Actors = 5
 )
 
